@@ -682,6 +682,220 @@ theorem C09_never_silent_ref {F} (ops : FloatOps F) (lookup : Int → RefLookup)
     (input.all isSpace = true ∧ r.val = .unset) :=
   never_silent_ref_of_cfg ops Generated.lexCfg (by decide) lookup nullable input hnul r h hne
 
+/-! ## BINARY -/
+
+/-- BINARY, never silent (any configuration in which `ReadBinary` reports delimiters without a digit and the severity found
+    after `$` is kept): whenever `STEPattribute::STEPread` flags no error, for *any* input bytes, then either
+    (a) the input is blanks, `"`, a non-empty run of hexadecimal digits (either case: the reader's leniency), `"`, blanks, and
+        the stream rests at the end or in front of a delimiter; the attribute holds exactly those digits; or
+    (b) the attribute is OPTIONAL and the input is `$` (followed by blanks only) or a missing value.
+    (A blank input is always reported: INCOMPLETE.) -/
+theorem never_silent_binary_of_cfg {F} (ops : FloatOps F) (cfg : LexCfg) (hcfg : cfg.binaryRejectsEmpty = true)
+    (hcfg2 : cfg.dollarKeepsError = true) (lookup : Int → RefLookup) (nullable : Bool)
+    (input : List Byte) (r : ReadResult F)
+    (h : attrRead ops cfg lookup .binary nullable (IStream.ofBytes input) = .ok r) (hne : NoErr r.sev) :
+    (∃ sp1 hex sp2, input = sp1 ++ 34 :: (hex ++ 34 :: (sp2 ++ r.s.right)) ∧ sp1.all isSpace = true ∧ sp2.all isSpace = true ∧
+        hex ≠ [] ∧ hex.all isXDigit = true ∧ r.val = .bin hex ∧ AtDelimOrEnd r.s.right) ∨
+    (nullable = true ∧ r.val = .unset ∧ ∃ sp1 c t, input = sp1 ++ c :: t ∧ sp1.all isSpace = true ∧
+        ((c = 36 ∧ ∃ sp2, t = sp2 ++ r.s.right ∧ sp2.all isSpace = true ∧ AtDelimOrEnd r.s.right) ∨
+         ((c = 44 ∨ c = 41) ∧ r.s.right = c :: t))) := by
+  obtain ⟨sp1, body, h1, h2, h3, h4⟩ := dropSpaces_split [] input
+  rcases h4 with rfl | ⟨c, t, rfl, hc⟩
+  · -- nothing but blanks: ReadBinary reports INCOMPLETE
+    exfalso
+    simp at h1; subst h1
+    have hws : (IStream.ofBytes input).ws = { left := input.reverse, right := [], eof := true } := by
+      simpa [IStream.ofBytes] using ws_blank [] input true h2
+    simp only [attrRead, hws] at h
+    simp [IStream.peekC, IStream.peek, IStream.sentry, IStream.good, readBinary, IStream.ws, checkRemainingInput] at h
+    subst h
+    exact greater_incomplete_err Sev.null hne
+  · subst h1
+    by_cases h36 : c = 36
+    · subst h36
+      rw [attrRead_dollar ops cfg lookup .binary nullable sp1 t h2] at h
+      simp only [Outcome.ok.injEq] at h
+      have hch := cri_char { left := 36 :: sp1.reverse, right := t } Sev.null rfl
+      subst h
+      cases nullable with
+      | false => simp [NoErr] at hne
+      | true =>
+        simp only [hcfg2, if_true] at hne ⊢
+        right
+        have := hch.2 hne
+        simp at this
+        obtain ⟨sp2, hs2, ht, _, hat⟩ := this
+        exact ⟨by simp, by simp, sp1, 36, t, rfl, h2, Or.inl ⟨rfl, sp2, ht, by simpa using hs2, hat⟩⟩
+    · by_cases hdl : c = 44 ∨ c = 41
+      · rw [attrRead_missing ops cfg lookup .binary nullable sp1 t c h2 hdl] at h
+        simp only [Outcome.ok.injEq] at h
+        subst h
+        cases nullable with
+        | false => simp [NoErr] at hne
+        | true => right; exact ⟨rfl, rfl, sp1, c, t, rfl, h2, Or.inr ⟨hdl, rfl⟩⟩
+      · have hcond : (c == 36 || c == 44 || c == 41) = false := by
+          simp at hdl ⊢; exact ⟨⟨h36, hdl.1⟩, hdl.2⟩
+        have hpre : (IStream.ofBytes (sp1 ++ c :: t)).ws = { left := sp1.reverse, right := c :: t } := by
+          simpa [IStream.ofBytes] using ws_good [] sp1 c t true h2 hc
+        simp only [attrRead, hpre, peekC_good, hcond, Bool.false_eq_true, if_false, Outcome.ok.injEq] at h
+        subst h
+        simp only at hne ⊢
+        generalize hq : readBinary cfg true { left := sp1.reverse, right := c :: t } Sev.null = q at hne ⊢
+        have hqe : NoErr q.2.2 := by
+          rcases cri_mono q.2.1 q.2.2 with hm | hm
+          · rw [hm] at hne; exact hne
+          · exact absurd hne hm
+        rw [← hq] at hqe
+        obtain ⟨hex, rest, hct, hx1, hx2, hre⟩ := readBinary_noerr cfg hcfg sp1.reverse c t true hc hqe
+        rw [hre] at hq
+        subst hq
+        simp only at hne ⊢
+        have hch := (cri_char { left := 34 :: (hex.reverse ++ 34 :: sp1.reverse), right := rest } Sev.null rfl).2 hne
+        generalize checkRemainingInput (some attrDelims) { left := 34 :: (hex.reverse ++ 34 :: sp1.reverse), right := rest } Sev.null = X at hne hch ⊢
+        left
+        simp at hch
+        obtain ⟨sp2, hs2, hrr, _, hat⟩ := hch
+        have hxe : hex.isEmpty = false := by cases hex <;> simp_all
+        refine ⟨sp1, hex, sp2, ?_, h2, by simpa using hs2, hx1, hx2, by simp [hxe], hat⟩
+        rw [hct, hrr]
+
+/-- BINARY, never silent, for the scanners as the source has them now. -/
+theorem C09_never_silent_binary {F} (ops : FloatOps F) (lookup : Int → RefLookup) (nullable : Bool)
+    (input : List Byte) (r : ReadResult F)
+    (h : attrRead ops Generated.lexCfg lookup .binary nullable (IStream.ofBytes input) = .ok r) (hne : NoErr r.sev) :
+    (∃ sp1 hex sp2, input = sp1 ++ 34 :: (hex ++ 34 :: (sp2 ++ r.s.right)) ∧ sp1.all isSpace = true ∧ sp2.all isSpace = true ∧
+        hex ≠ [] ∧ hex.all isXDigit = true ∧ r.val = .bin hex ∧ AtDelimOrEnd r.s.right) ∨
+    (nullable = true ∧ r.val = .unset ∧ ∃ sp1 c t, input = sp1 ++ c :: t ∧ sp1.all isSpace = true ∧
+        ((c = 36 ∧ ∃ sp2, t = sp2 ++ r.s.right ∧ sp2.all isSpace = true ∧ AtDelimOrEnd r.s.right) ∨
+         ((c = 44 ∨ c = 41) ∧ r.s.right = c :: t))) :=
+  never_silent_binary_of_cfg ops Generated.lexCfg (by decide) (by decide) lookup nullable input r h hne
+
+/-! ## STRING -/
+
+/-- STRING, never silent (any configuration that keeps the severity found after `$`): whenever
+    `STEPattribute::STEPread` flags no error, for *any* input bytes, then either
+    (a) the input is blanks, a literal that starts and ends with an apostrophe, blanks, and the stream rests at the end or in
+        front of a delimiter; the attribute holds exactly that literal (stepcode keeps strings in their encoded form, quotes
+        included, and never decodes control directives — so every such literal spells itself); or
+    (b) the attribute is OPTIONAL and the input is `$` (followed by blanks only) or a missing value.
+    (A blank input, or one that does not start with an apostrophe, is always reported.) -/
+theorem never_silent_string_of_cfg {F} (ops : FloatOps F) (cfg : LexCfg) (hcfg2 : cfg.dollarKeepsError = true)
+    (lookup : Int → RefLookup) (nullable : Bool) (input : List Byte) (r : ReadResult F)
+    (h : attrRead ops cfg lookup .string nullable (IStream.ofBytes input) = .ok r) (hne : NoErr r.sev) :
+    (∃ sp1 tok sp2, input = sp1 ++ tok ++ sp2 ++ r.s.right ∧ sp1.all isSpace = true ∧ sp2.all isSpace = true ∧
+        isStringLenient tok = true ∧ r.val = .str tok ∧ AtDelimOrEnd r.s.right) ∨
+    (nullable = true ∧ r.val = .unset ∧ ∃ sp1 c t, input = sp1 ++ c :: t ∧ sp1.all isSpace = true ∧
+        ((c = 36 ∧ ∃ sp2, t = sp2 ++ r.s.right ∧ sp2.all isSpace = true ∧ AtDelimOrEnd r.s.right) ∨
+         ((c = 44 ∨ c = 41) ∧ r.s.right = c :: t))) := by
+  obtain ⟨sp1, body, h1, h2, h3, h4⟩ := dropSpaces_split [] input
+  rcases h4 with rfl | ⟨c, t, rfl, hc⟩
+  · exfalso
+    simp at h1; subst h1
+    have hws : (IStream.ofBytes input).ws = { left := input.reverse, right := [], eof := true } := by
+      simpa [IStream.ofBytes] using ws_blank [] input true h2
+    simp only [attrRead, hws] at h
+    simp [IStream.peekC, IStream.peek, IStream.sentry, IStream.good, stringRead, getLiteralStr, IStream.setSkipws, IStream.ws,
+      checkRemainingInput] at h
+    subst h
+    exact greater_incomplete_err Sev.null hne
+  · subst h1
+    by_cases h36 : c = 36
+    · subst h36
+      rw [attrRead_dollar ops cfg lookup .string nullable sp1 t h2] at h
+      simp only [Outcome.ok.injEq] at h
+      have hch := cri_char { left := 36 :: sp1.reverse, right := t } Sev.null rfl
+      subst h
+      cases nullable with
+      | false => simp [NoErr] at hne
+      | true =>
+        simp only [hcfg2, if_true] at hne ⊢
+        right
+        have := hch.2 hne
+        simp at this
+        obtain ⟨sp2, hs2, ht, _, hat⟩ := this
+        exact ⟨by simp, by simp, sp1, 36, t, rfl, h2, Or.inl ⟨rfl, sp2, ht, by simpa using hs2, hat⟩⟩
+    · by_cases hdl : c = 44 ∨ c = 41
+      · rw [attrRead_missing ops cfg lookup .string nullable sp1 t c h2 hdl] at h
+        simp only [Outcome.ok.injEq] at h
+        subst h
+        cases nullable with
+        | false => simp [NoErr] at hne
+        | true => right; exact ⟨rfl, rfl, sp1, c, t, rfl, h2, Or.inr ⟨hdl, rfl⟩⟩
+      · have hcond : (c == 36 || c == 44 || c == 41) = false := by
+          simp at hdl ⊢; exact ⟨⟨h36, hdl.1⟩, hdl.2⟩
+        have hpre : (IStream.ofBytes (sp1 ++ c :: t)).ws = { left := sp1.reverse, right := c :: t } := by
+          simpa [IStream.ofBytes] using ws_good [] sp1 c t true h2 hc
+        simp only [attrRead, hpre, peekC_good, hcond, Bool.false_eq_true, if_false, Outcome.ok.injEq, stringRead,
+          IStream.setSkipws, getLiteralStr, ws_good0 _ _ _ _ hc, IStream.good, Bool.not_false, Bool.and_self, Bool.not_true] at h
+        by_cases hq : c = 39
+        · subst hq
+          simp only [beq_self_eq_true, if_true] at h
+          obtain ⟨m, hm1, hm2, hm3, hm4, hm5, hm6⟩ := litLoop_spec [39] true t (by simp)
+          generalize hll : litLoop [39] true t = ll at h hm1 hm2 hm3 hm4 hm5 hm6
+          obtain ⟨srev, rest, esc, hitEnd⟩ := ll
+          simp only at h hm1 hm2 hm3 hm4 hm5 hm6
+          subst hm2
+          have hne' : (m.reverse ++ [39]).reverse.isEmpty = false := by simp
+          simp only [hne', Bool.false_eq_true, if_false] at h
+          subst h
+          simp only at hne ⊢
+          cases esc with
+          | true =>
+            exfalso
+            simp only [if_true] at hne
+            rcases cri_mono _ (Sev.null.greater Sev.inputError) with hmm | hmm
+            · rw [hmm] at hne; exact greater_inputError_err _ hne
+            · exact hmm hne
+          | false =>
+            simp only [Bool.false_eq_true, if_false] at hne ⊢
+            have hmne : m ≠ [] := by
+              intro hm; have := hm6 hm; cases this
+            have hch := (cri_char { left := m.reverse ++ [39] ++ sp1.reverse, right := rest, eof := hitEnd, skipws := false } Sev.null rfl).2 hne
+            generalize checkRemainingInput (some attrDelims)
+              { left := m.reverse ++ [39] ++ sp1.reverse, right := rest, eof := hitEnd, skipws := false } Sev.null = X at hne hch ⊢
+            left
+            have hlast : m.getLast? = some 39 := by
+              have := hm3 rfl
+              cases hmr : m.reverse with
+              | nil => simp at hmr; exact absurd hmr hmne
+              | cons a u =>
+                rw [hmr] at this
+                simp at this
+                have : m = (a :: u).reverse := by rw [← hmr]; simp
+                rw [this]; simp; assumption
+            have hlen : isStringLenient ((m.reverse ++ [39]).reverse) = true := by
+              simp [isStringLenient, hlast]
+            rcases hch with ⟨heof, hsame⟩ | ⟨heof, sp2, hs2, hrr, _, hat⟩
+            · simp only at heof
+              subst heof
+              have hre : rest = [] := hm4 rfl
+              subst hre
+              refine ⟨sp1, (m.reverse ++ [39]).reverse, [], ?_, h2, by simp, hlen, rfl, ?_⟩
+              · rw [hsame]; simp [hm1]
+              · rw [hsame]; exact Or.inl rfl
+            · simp only at hrr
+              refine ⟨sp1, (m.reverse ++ [39]).reverse, sp2, ?_, h2, hs2, hlen, rfl, hat⟩
+              rw [hm1, hrr]; simp
+        · exfalso
+          have hq' : (c == 39) = false := by simpa using hq
+          simp only [hq', Bool.false_eq_true, if_false, List.isEmpty_nil, if_true] at h
+          subst h
+          simp only at hne
+          rcases cri_mono _ (Sev.null.greater Sev.incomplete) with hmm | hmm
+          · rw [hmm] at hne; exact greater_incomplete_err _ hne
+          · exact hmm hne
+
+/-- STRING, never silent, for the scanners as the source has them now. -/
+theorem C09_never_silent_string {F} (ops : FloatOps F) (lookup : Int → RefLookup) (nullable : Bool)
+    (input : List Byte) (r : ReadResult F)
+    (h : attrRead ops Generated.lexCfg lookup .string nullable (IStream.ofBytes input) = .ok r) (hne : NoErr r.sev) :
+    (∃ sp1 tok sp2, input = sp1 ++ tok ++ sp2 ++ r.s.right ∧ sp1.all isSpace = true ∧ sp2.all isSpace = true ∧
+        isStringLenient tok = true ∧ r.val = .str tok ∧ AtDelimOrEnd r.s.right) ∨
+    (nullable = true ∧ r.val = .unset ∧ ∃ sp1 c t, input = sp1 ++ c :: t ∧ sp1.all isSpace = true ∧
+        ((c = 36 ∧ ∃ sp2, t = sp2 ++ r.s.right ∧ sp2.all isSpace = true ∧ AtDelimOrEnd r.s.right) ∨
+         ((c = 44 ∨ c = 41) ∧ r.s.right = c :: t))) :=
+  never_silent_string_of_cfg ops Generated.lexCfg (by decide) lookup nullable input r h hne
+
 /-! ## witnesses: what the unrepaired scanners did, and the in-band null (any configuration)
 
 Each `…_witness_unrepaired` theorem evaluates the model under the configuration of the tree *before* the C09 repairs on the
